@@ -522,4 +522,201 @@ example (k : StreamKind) (isLazy : Bool) :
     (by decide +kernel) (by decide +kernel) (by decide +kernel) idx
   exact ⟨o1, e, g1, g2⟩
 
+/-! ### 5. truncated files (C17): the remaining table read-outs of a prefix that loads
+
+State: `PrefixLoadedC img k o` = `PrefixLoaded img k o` (Props/ComposeTables.lean §3) plus "every section carries the
+image's class" (`LoadedTables.load_secs_cls`; the relocation and dynamic accessors test it).  `prefix_secResident_c`:
+`sections[i]->get_data()` keeps the state and hands out a section WITHOUT data, or a section that is — for every
+accessor — as good as the complete file's (`pready_inv`: C07's invariant with content = the bytes the complete file
+assigns to section `i`).  Without data the fixed accessors (C18's guards, `TQ.runQuery`) refuse; the dynamic accessor
+reports one fabricated DT_NULL entry (stated exactly in `prefix_dynamic_sound`). -/
+
+/-- a loaded prefix whose sections carry the image's class -/
+structure PrefixLoadedC (img : Bytes) (k : Nat) (o : Obj) : Prop where
+  base : PrefixLoaded img k o
+  secCls : ∀ b ∈ o.secs, b.cls = clsOf img
+
+/-- **a prefix of a well-formed image that loads** is `PrefixLoadedC` -/
+theorem prefixLoadedC_of_load (img : Bytes) (hwf : WellFormedImage img) (o : Obj) (htr : o.trans = []) (k : Nat)
+    (kind : StreamKind) (isLazy : Bool) (rp : LoadRes)
+    (hp : load o { data := img.take k, kind := kind } isLazy = .ok rp) (hok : rp.ok = true) :
+    PrefixLoadedC img k rp.obj := by
+  have hb := prefixLoaded_of_load img hwf o htr k kind isLazy rp hp hok
+  refine ⟨hb, ?_⟩
+  intro b hm
+  rw [load_secs_cls o _ isLazy rp hp b hm, hb.cls]
+
+theorem secResident_shape {o : Obj} {i : Nat} {o1 : Obj} {b1 : SecBuf} (h : secResident o i = some (o1, b1)) :
+    ∃ b, o.secs[i]? = some b ∧ b1 = (secGetData o.cls o.trans { st := o.stream } b).2 ∧
+      o1.secs = o.secs.set i b1 := by
+  unfold secResident at h
+  split at h
+  · cases h
+  · rename_i b hb
+    simp only [Option.some.injEq, Prod.mk.injEq] at h
+    exact ⟨b, hb, h.2.symm, by rw [← h.1, ← h.2]⟩
+
+/-- `sections[i]->get_data()` on a loaded prefix, with the loader invariant and the class of the section handed out -/
+theorem prefix_secResident_c (img : Bytes) (k : Nat) (o : Obj) (hP : PrefixLoadedC img k o) (i : Nat)
+    (hi : i < eh img "e_shnum") :
+    ∃ o1 b1, secResident o i = some (o1, b1) ∧ PrefixLoadedC img k o1 ∧ PReady img i b1 ∧
+      LoadedSec [] b1 (img.take k) ∧ b1.cls = clsOf img ∧ o1.segs = o.segs := by
+  obtain ⟨o1, b1, h1, hP1, hR⟩ := prefix_secResident img k o hP.base i hi
+  obtain ⟨b, hb, hb1, hsecs⟩ := secResident_shape h1
+  have hlt : i < o.secs.length := by rw [hP.base.nsecs]; exact hi
+  have hmem : b ∈ o.secs := List.mem_of_getElem? hb
+  have hcls : b1.cls = clsOf img := by
+    rw [hb1, (secGetData_sameHdr _ _ _ b).cls]; exact hP.secCls b hmem
+  have hmem1 : b1 ∈ o1.secs := by
+    rw [hsecs]; exact List.mem_iff_getElem.mpr ⟨i, by simpa using hlt, by simp⟩
+  refine ⟨o1, b1, h1, ⟨hP1, ?_⟩, hR, ?_, hcls, secResident_segs h1⟩
+  · intro b' hb'
+    rw [hsecs] at hb'
+    rcases List.mem_or_eq_of_mem_set hb' with h | h
+    · exact hP.secCls b' h
+    · rw [h]; exact hcls
+  · have := hP1.inv.secs b1 hmem1
+    rw [hP1.trans] at this
+    exact this
+
+theorem stype_ne_nobits {img : Bytes} {i : Nat} {b : SecBuf} (hst : b.stype.toNat = sh img i "sh_type")
+    (hocc : occupiesFile (sh img i "sh_type") = true) : b.stype ≠ BitVec.ofNat 32 SHT_NOBITS := by
+  intro e
+  rw [e] at hst
+  rw [← hst] at hocc
+  revert hocc; decide
+
+/-- a section of a loaded prefix that HAS data is, for every accessor, as good as the complete file's: its header
+    fields are the specification's, it satisfies C07's invariant, and its content is the bytes the complete file
+    assigns to the section -/
+theorem pready_inv {img : Bytes} {k i : Nat} {b1 : SecBuf} (hR : PReady img i b1)
+    (hLS : LoadedSec [] b1 (img.take k)) {d : Bytes} (hd : b1.data = some d) :
+    Fields img i b1 ∧ occupiesFile (sh img i "sh_type") = true ∧ b1.Inv ∧ b1.content = secFileBytes img i ∧
+      (secFileBytes img i).length = sh img i "sh_size" ∧ b1.getData = b1 ∧ (secData b1).isNone = false := by
+  rcases hR.data with hn | ⟨hF, hocc, hv, hn, hss⟩
+  · rw [hn] at hd; cases hd
+  · obtain ⟨e1, e2⟩ := hn d hd
+    have hl : b1.view.length = b1.size.toNat := by rw [e1] at e2; simpa using e2
+    have hres : b1.Resident := by
+      refine ⟨stype_ne_nobits hF.stype hocc, fun e => (by rw [hd] at e; cases e), Or.inr ⟨d, hd, ?_, ?_⟩, ?_⟩
+      · rw [hLS.dsz d hd]; exact Nat.le_refl _
+      · rw [hLS.dsz d hd, e2]; omega
+      · rw [hLS.dsz d hd]; omega
+    refine ⟨hF, hocc, Or.inl hres, by rw [C07.content_resident hres, hv], by rw [← hv, hl, hF.size],
+      getData_of_settled hR.settled, ?_⟩
+    unfold secData
+    rw [getData_of_settled hR.settled, hd]; rfl
+
+theorem pready_secData {img : Bytes} {i : Nat} {b1 : SecBuf} (hR : PReady img i b1) : secData b1 = b1.data := by
+  unfold secData; rw [getData_of_settled hR.settled]
+
+/-! #### arrays and symbol-version indices on a truncated file -/
+
+/-- **prefix_array_sound** (C17 for `array_section_accessor<w>`): on a prefix of a well-formed image that loads, for
+    a section `i` whose size is a whole number of `w`-byte entries, `get_entry(k, address)` is for EVERY 64-bit `k`
+    refused (false), or exactly what the specification says the COMPLETE file holds there (`Spec.tableEntry` of the
+    section's bytes of `img` = what the complete file's load reports: `array_reports_spec` / `tq_reports_spec`). -/
+theorem prefix_array_sound (img : Bytes) (k : Nat) (o : Obj) (hP : PrefixLoadedC img k o) (i : Nat)
+    (hi : i < eh img "e_shnum") (w : Arr.W) (hwhole : sh img i "sh_size" % w.bytes = 0) (idx : BitVec 64) :
+    ∃ o1 out, TQ.runQuery o (.arrGet w i idx) = .ok (o1, .addr out) ∧ PrefixLoadedC img k o1 ∧
+      (out = none ∨
+       out = (Spec.tableEntry (encOf img) w.bytes (secFileBytes img i) idx.toNat).map (BitVec.ofNat 64)) := by
+  obtain ⟨o1, b1, h1, hP1, hR, hLS, _, _⟩ := prefix_secResident_c img k o hP i hi
+  have hs : TQ.settle o i = some (o1, b1) := h1
+  cases hd : b1.data with
+  | none =>
+    have hn : (secData b1).isNone = true := by rw [pready_secData hR, hd]; rfl
+    have hq : TQ.arrGet w (encOf img) b1 idx = .ok none := by
+      unfold TQ.arrGet
+      cases w <;> simp only [] <;> split <;> first | rfl | simp only [tq_arr32_nodata, tq_arr64_nodata, hn, if_true]; rfl
+    refine ⟨o1, none, ?_, hP1, Or.inl rfl⟩
+    simp only [TQ.runQuery, hs, hP.base.enc, hq, TQ.liftQ]; rfl
+  | some d =>
+    obtain ⟨hF, hocc, hinv, hcont, hlen, hgd, hdata⟩ := pready_inv hR hLS hd
+    have hw : 0 < w.bytes := by cases w <;> decide
+    have henc := encode_decodeArr (encOf img) w.bytes hw (secFileBytes img i) (by rw [hlen]; exact hwhole)
+    have hg := C14.array_get w (encOf img) b1 hinv (decodeArr (encOf img) w.bytes (secFileBytes img i))
+      (by rw [hcont, henc]) idx
+    have g2 : Arr.getEntry w (encOf img) b1 idx =
+        .ok ((Spec.tableEntry (encOf img) w.bytes (secFileBytes img i) idx.toNat).map (BitVec.ofNat 64)) := by
+      rw [hg, ← decodeArr_get (encOf img) w.bytes hw _ (by rw [hlen]; exact hwhole)]
+      split <;> rfl
+    have hq : TQ.arrGet w (encOf img) b1 idx =
+        .ok ((Spec.tableEntry (encOf img) w.bytes (secFileBytes img i) idx.toNat).map (BitVec.ofNat 64)) := by
+      unfold TQ.arrGet
+      cases w
+      · by_cases hg : arr32_get_guard idx (Arr.entriesNum .w4 b1) = true
+        · simp only [hg, if_true]
+          rw [← g2]; simp only [Arr.getEntry, hg, if_true]
+        · simp only [hg, Bool.false_eq_true, if_false, tq_arr32_nodata, hdata, g2]
+      · by_cases hg : arr64_get_guard idx (Arr.entriesNum .w8 b1) = true
+        · simp only [hg, if_true]
+          rw [← g2]; simp only [Arr.getEntry, hg, if_true]
+        · simp only [hg, Bool.false_eq_true, if_false, tq_arr64_nodata, hdata, g2]
+    refine ⟨o1, _, ?_, hP1, Or.inr rfl⟩
+    simp only [TQ.runQuery, hs, hP.base.enc, hq, TQ.liftQ]; rfl
+
+example (k : Nat) (kind : StreamKind) (isLazy : Bool) (rp : LoadRes)
+    (hp : load {} { data := exImg.take k, kind := kind } isLazy = .ok rp) (hok : rp.ok = true) (idx : BitVec 64) :
+    ∃ o1 out, TQ.runQuery rp.obj (.arrGet .w4 7 idx) = .ok (o1, .addr out) ∧
+      (out = none ∨ out = (Spec.tableEntry (encOf exImg) 4 (secFileBytes exImg 7) idx.toNat).map (BitVec.ofNat 64)) := by
+  obtain ⟨o1, out, h, _, h'⟩ := prefix_array_sound exImg k rp.obj
+    (prefixLoadedC_of_load exImg exImg_wf {} rfl k kind isLazy rp hp hok) 7 (by decide +kernel) .w4
+    (by decide +kernel) idx
+  exact ⟨o1, out, h, h'⟩
+
+/-- **prefix_versym_sound** (C17 for `versym_section_accessor`): on a prefix that loads, for a section `i` that is a
+    whole number (< 2^32) of half-words in a file whose byte order is the host's (F4, as in `versym_reports_spec`),
+    `get_entry(k, value)` is for EVERY 32-bit `k` refused, or the `k`-th half-word of the COMPLETE file's section. -/
+theorem prefix_versym_sound (img : Bytes) (k : Nat) (o : Obj) (hP : PrefixLoadedC img k o) (i : Nat)
+    (hi : i < eh img "e_shnum") (hwhole : sh img i "sh_size" % 2 = 0) (h32 : sh img i "sh_size" / 2 < 4294967296)
+    (hhost : encOf img = C14.hostEnc) (idx : BitVec 32) :
+    ∃ o1 out, TQ.runQuery o (.versymGet i idx) = .ok (o1, .half out) ∧ PrefixLoadedC img k o1 ∧
+      (out = none ∨
+       out = (Spec.tableEntry (encOf img) 2 (secFileBytes img i) idx.toNat).map (BitVec.ofNat 16)) := by
+  obtain ⟨o1, b1, h1, hP1, hR, hLS, _, _⟩ := prefix_secResident_c img k o hP i hi
+  have hs : TQ.settle o i = some (o1, b1) := h1
+  cases hd : b1.data with
+  | none =>
+    have hn : (secData b1).isNone = true := by rw [pready_secData hR, hd]; rfl
+    have hq : TQ.versymGet b1 (Versym.mk b1) idx = .ok none := by
+      unfold TQ.versymGet
+      split
+      · simp only [tq_vs_nodata, hn, if_true]; rfl
+      · rfl
+    refine ⟨o1, none, ?_, hP1, Or.inl rfl⟩
+    simp only [TQ.runQuery, hs, hq, TQ.liftQ]; rfl
+  | some d =>
+    obtain ⟨hF, hocc, hinv, hcont, hlen, hgd, hdata⟩ := pready_inv hR hLS hd
+    have henc := encode_decodeArr (encOf img) 2 (by decide) (secFileBytes img i) (by rw [hlen]; exact hwhole)
+    have hmk : (Versym.mk b1).toNat = (decodeArr (encOf img) 2 (secFileBytes img i)).length := by
+      simp only [Versym.mk, vs_ctor_guard, if_true, vs_count, BitVec.toNat_setWidth, BitVec.toNat_udiv,
+        BitVec.toNat_ofNat, Nat.reducePow, Nat.reduceMod, decodeArr, List.length_map, List.length_range, hlen,
+        hF.size]
+      omega
+    have hg := C14.versym_get b1 hinv (Versym.mk b1) (decodeArr (encOf img) 2 (secFileBytes img i))
+      (by rw [hcont, ← hhost, henc]) hmk idx
+    have g2 : Versym.getEntry b1 (Versym.mk b1) idx =
+        .ok ((Spec.tableEntry (encOf img) 2 (secFileBytes img i) idx.toNat).map (BitVec.ofNat 16)) := by
+      rw [hg, ← decodeArr_get (encOf img) 2 (by decide) _ (by rw [hlen]; exact hwhole)]
+      split <;> rfl
+    have hq : TQ.versymGet b1 (Versym.mk b1) idx =
+        .ok ((Spec.tableEntry (encOf img) 2 (secFileBytes img i) idx.toNat).map (BitVec.ofNat 16)) := by
+      unfold TQ.versymGet
+      by_cases hg : vs_get_guard true idx (Versym.entriesNum (Versym.mk b1)) = true
+      · simp only [hg, if_true, tq_vs_nodata, hdata, Bool.false_eq_true, if_false, g2]
+      · simp only [hg, Bool.false_eq_true, if_false]
+        rw [← g2]; simp only [Versym.getEntry, hg, Bool.false_eq_true, if_false]
+    refine ⟨o1, _, ?_, hP1, Or.inr rfl⟩
+    simp only [TQ.runQuery, hs, hq, TQ.liftQ]; rfl
+
+example (k : Nat) (kind : StreamKind) (isLazy : Bool) (rp : LoadRes)
+    (hp : load {} { data := exImg.take k, kind := kind } isLazy = .ok rp) (hok : rp.ok = true) (idx : BitVec 32) :
+    ∃ o1 out, TQ.runQuery rp.obj (.versymGet 8 idx) = .ok (o1, .half out) ∧
+      (out = none ∨ out = (Spec.tableEntry (encOf exImg) 2 (secFileBytes exImg 8) idx.toNat).map (BitVec.ofNat 16)) := by
+  obtain ⟨o1, out, h, _, h'⟩ := prefix_versym_sound exImg k rp.obj
+    (prefixLoadedC_of_load exImg exImg_wf {} rfl k kind isLazy rp hp hok) 8 (by decide +kernel) (by decide +kernel)
+    (by decide +kernel) (by decide +kernel) idx
+  exact ⟨o1, out, h, h'⟩
+
 end ElfioVerif.ComposeTables
